@@ -129,16 +129,9 @@ RETCODE adfRenameEntry ( struct AdfVolume * const vol,
         }
     }
 
-    /* change name and parent dir */
-    entry.nameLen = (uint8_t) len;
-    memcpy(entry.name, newName, entry.nameLen);
-    entry.parent = nPSect;
+    /* the entry's own block is rewritten only once it is out of its old chain: if an
+       access fails in between, the entries behind it in that chain stay reachable */
     tmpSect = entry.nextSameHash;
-
-    entry.nextSameHash = 0;
-    rc = adfWriteEntryBlock ( vol, nSect, &entry );
-    if ( rc != RC_OK )
-        return rc;
 
     /* del from the oldname list */
 
@@ -168,6 +161,15 @@ RETCODE adfRenameEntry ( struct AdfVolume * const vol,
         rc = adfWriteRootBlock ( vol, (uint32_t) pSect, (struct bRootBlock*) &parent );
     else
         rc = adfWriteDirBlock ( vol, pSect, (struct bDirBlock*) &parent );
+    if ( rc != RC_OK )
+        return rc;
+
+    /* change name and parent dir */
+    entry.nameLen = (uint8_t) len;
+    memcpy(entry.name, newName, entry.nameLen);
+    entry.parent = nPSect;
+    entry.nextSameHash = 0;
+    rc = adfWriteEntryBlock ( vol, nSect, &entry );
     if ( rc != RC_OK )
         return rc;
 
